@@ -20,6 +20,12 @@ case "$CMD" in
     mkdir -p "$L"
     git -C /repo worktree add --detach "$L/repo" HEAD >/dev/null
     sync_lab
+    # seed the lab's target dir with the already compiled third-party crates (their fingerprints
+    # do not depend on the workspace path), so that only the sway/forc/vh crates are rebuilt
+    if [ -d /verif/target/release ] && [ ! -d "$L/target" ]; then
+      mkdir -p "$L/target"
+      rsync -a --exclude incremental --exclude 'c[0-9][0-9]' --exclude probe --exclude gendump /verif/target/ "$L/target/" 2>/dev/null || true
+    fi
     echo "lab at $L (worktree $L/repo)";;
   sync) sync_lab;;
   check)
